@@ -8,7 +8,7 @@ MODULES = K.mods("base", "Angle", "Epoch", "Interpolation", "Coordinates", "Eart
 REQUIRED = ["Ellipsoid.__init__", "Ellipsoid.b", "Ellipsoid.e", "Earth.__init__", "Earth.set",
             "Earth.rho", "Earth.rho_sinphi", "Earth.rho_cosphi", "Earth.rp", "Earth.linear_velocity",
             "Earth.rm", "Earth.distance", "Earth.parallax_correction", "Earth.parallax_ecliptical"]
-THEOREMS = ["C18_builtin", "C18_earth_object", "C18_on_ellipse", "C18_height", "C18_parallel_radius",
+THEOREMS = ["C18_builtin", "C18_earth_object", "C18_set_ellipsoid", "C18_on_ellipse", "C18_height", "C18_parallel_radius",
             "C18_linear_velocity", "C18_rm_equator", "C18_rm_pole", "C18_rm_monotone",
             "C18_distance_symmetric", "C18_distance_symmetric_angle", "C18_distance_coincident",
             "C18_distance_equator", "C18_distance_value"]
@@ -42,6 +42,7 @@ CLAUSES = {
         "proved [ideal, C18_rm_equator, C18_rm_pole, C18_rm_monotone]; searched",
     "linear speed = angular velocity * parallel radius": "proved [ideal, C18_linear_velocity]; searched",
     "height adds h/a (cos phi, sin phi)": "proved [ideal, C18_height]; searched",
+    "Earth.set(E) gives exactly the object Earth(E) (no state besides the ellipsoid)": "proved [ideal, C18_set_ellipsoid]; searched with call sequences (set after use, two objects alive), key set-ellipsoid-identities",
     "built-in ellipsoids IAU76 / WGS84 have the documented constants and are covered": "proved [ideal, C18_builtin]; searched",
     "distance symmetric for all point pairs (four float or four Angle arguments)":
         "proved [ideal, C18_distance_symmetric(_angle); exactly antipodal pairs (c = 0) raise ZeroDivisionError in both orders in the real-number instance; in binary64 c is never 0 there — searched]",
@@ -310,6 +311,81 @@ class Oracle:
             self.add("rho-sea-level", "rho(%r) = %r (Angle: %r), sqrt((rho cos)^2+(rho sin)^2) on IAU76 = %r" % (lat, r, r2, want), lat,
                      "e=Earth(IAU76); print(e.rho(%r), e.rho(Angle(%r)))" % (lat, lat))
 
+
+    # -- multi-step probes: Earth.set / construction / independent objects
+    def identities_on(self, e, a, f, om, lat):
+        """all identity clauses on one live Earth object; returns a description of the first failure or None"""
+        b = a * (1.0 - f)
+        x0, y0 = e.rho_cosphi(lat, 0.0), e.rho_sinphi(lat, 0.0)
+        if not abs(x0 * x0 + (y0 * a / b) ** 2 - 1.0) <= 1e-12:
+            return "on-ellipse: x^2+(y a/b)^2 = %r" % (x0 * x0 + (y0 * a / b) ** 2)
+        gx, gy = geocentric(a, f, lat, 0.0)
+        if not (abs(x0 - gx) <= 1e-12 and abs(y0 - gy) <= 1e-12):
+            return "rho_cosphi/rho_sinphi = (%r, %r), closed form on (a, f) = (%r, %r)" % (x0, y0, gx, gy)
+        rp = e.rp(lat)
+        if not abs(rp - a * x0) <= 1e-12 * a:
+            return "rp = %r, a rho cos phi' = %r" % (rp, a * x0)
+        lv = e.linear_velocity(lat)
+        if not abs(lv - om * rp) <= 1e-15 * abs(om * rp) + 1e-300:
+            return "linear_velocity = %r, omega rp = %r" % (lv, om * rp)
+        r0, r9, rl = e.rm(0.0), e.rm(90.0), e.rm(lat)
+        if not abs(r0 - b * b / a) <= 1e-12 * a:
+            return "rm(0) = %r, b^2/a = %r" % (r0, b * b / a)
+        if not abs(r9 - a * a / b) <= 1e-12 * a:
+            return "rm(90) = %r, a^2/b = %r" % (r9, a * a / b)
+        if not (r0 * (1 - 1e-12) <= rl <= r9 * (1 + 1e-12)):
+            return "rm(%r) = %r outside [rm(0), rm(90)]" % (lat, rl)
+        if 0.0 < abs(lat) < 90.0:
+            d = e.distance(10.0, 0.0, 10.0 + lat, 0.0)[0]
+            if not abs(d - a * math.radians(abs(lat))) <= 1e-12 * a:
+                return "equatorial distance = %r, a |dlambda| = %r" % (d, a * math.radians(abs(lat)))
+        return None
+
+    def check_set(self, ell1, ell2, lat):
+        """e = Earth(E1); e.set(E2): identities on E2; Earth(E2) directly; two objects alive at once"""
+        (x1, a1, f1, o1), (x2, a2, f2, o2) = ell1, ell2
+        es1 = ("Ellipsoid(%r, %r, %r)" % (a1, f1, o1)) if x1 is None else x1
+        es2 = ("Ellipsoid(%r, %r, %r)" % (a2, f2, o2)) if x2 is None else x2
+        mk = lambda x, a, f, o: self.Ellipsoid(a, f, o) if x is None else getattr(self.Em, x)
+        show = "print(e.rho_cosphi(%r,0.0), e.rho_sinphi(%r,0.0), e.rp(%r), e.linear_velocity(%r), e.rm(0.0), e.rm(90.0), e.rm(%r))" % ((lat,) * 5)
+        seqs = [
+            ("e=Earth(%s); e.set(%s); " % (es1, es2), lambda: self._seq_set(mk(x1, a1, f1, o1), mk(x2, a2, f2, o2))),
+            ("e=Earth(); e.set(%s); " % es2, lambda: self._seq_set(None, mk(x2, a2, f2, o2))),
+            ("e=Earth(%s); " % es2, lambda: self.Earth(mk(x2, a2, f2, o2))),
+            ("e0=Earth(%s); e0.rp(%r); e=Earth(%s); e0.rm(%r); " % (es1, lat, es2, lat), lambda: self._seq_two(mk(x1, a1, f1, o1), mk(x2, a2, f2, o2), lat)),
+            ("e=Earth(%s); e1=Earth(%s); e1.set(IAU76); e1.rp(%r); " % (es2, es1, lat), lambda: self._seq_other(mk(x1, a1, f1, o1), mk(x2, a2, f2, o2), lat)),
+        ]
+        for pre, build in seqs:
+            self.n += 8
+            try:
+                e = build()
+                bad = self.identities_on(e, a2, f2, o2, lat)
+            except Exception as ex:
+                bad = "raises %s: %s" % (type(ex).__name__, ex)
+            if bad:
+                self.add("set-ellipsoid-identities", "after `%s` at latitude %r: %s" % (pre.strip(), lat, bad),
+                         {"sequence": pre, "latitude": lat}, pre + show)
+            else:
+                self.nontriv += 1
+
+    def _seq_set(self, first, second):
+        e = self.Earth() if first is None else self.Earth(first)
+        e.rp(33.0); e.rm(33.0)          # use the object before changing the ellipsoid
+        e.set(second)
+        return e
+
+    def _seq_two(self, first, second, lat):
+        e0 = self.Earth(first); e0.rp(lat)
+        e = self.Earth(second)
+        e0.rm(lat); e0.linear_velocity(lat)
+        return e
+
+    def _seq_other(self, first, second, lat):
+        e = self.Earth(second)
+        e1 = self.Earth(first)
+        e1.set(self.Em.IAU76); e1.rp(lat); e1.rm(lat)
+        return e
+
     # -- distance
     def check_pair(self, ellx, a, f, om, p, as_angle):
         ell = self.Ellipsoid(a, f, om) if ellx is None else getattr(self.Em, ellx)
@@ -466,6 +542,12 @@ def search(rng, tier, deep):
         O.check_point(*ell, lat, gen_height(rng), rng.random() < 0.4)
     for ell in [("IAU76",) + BUILTIN["IAU76"], ("WGS84",) + BUILTIN["WGS84"]] + [user_ell(rng) for _ in range(20 if big else 6)]:
         O.check_rm_profile(*ell, rng)
+    special = [(None, 6378140.0, 0.0, 7.292114992e-5), (None, 6378140.0, 0.01, 7.292114992e-5), (None, 1.0e6, 0.005, 1e-4),
+               ("IAU76",) + BUILTIN["IAU76"], ("WGS84",) + BUILTIN["WGS84"]]
+    for i in range(120 if big else 30):
+        e1 = special[i % len(special)] if i < 10 else pick_ell(rng)
+        e2 = special[(i // 2) % len(special)] if i < 10 else user_ell(rng)
+        O.check_set(e1, e2, rng.choice([42.0, -33.356111, 0.5, 89.0]) if i < 10 else clamp_lat(gen_lat(rng)))
     fixed = [(0.0, 0.0, 0.0, 0.0), (0.0, 0.0, 180.0, 0.0), (0.0, 90.0, 0.0, -90.0), (10.0, 30.0, -170.0, -30.0),
              (0.0, 0.0, 1e-12, 0.0), (12.5, 0.0, -100.0, 0.0), (7.0, -90.0, 7.0, 90.0), (7.0, -90.0, 7.0, 0.0),
              (-2.337222, 48.836389, 77.065556, 38.921389)]
@@ -487,7 +569,7 @@ def search(rng, tier, deep):
     O.check_parallax_ecl(10.0, -5.0, 0.2709722222222222, 50.08550000000001, 23.46688888888889, 209.76886111111114, 0.0024650163, 0.0)
     O.check_parallax_ecl(0.0, 0.0, 0.27, 50.0, 23.44, 209.0, 0.0024650163, 0.0)
     stats = {"evaluations": O.n, "distinct_nontrivial": O.nontriv,
-             "rule": "latitudes -90..90 (poles, equator, +-1e-9, 1 ulp inside the poles) x heights -500..9000 m x {IAU76, WGS84, user ellipsoids f in [0, 0.01]}: "
+             "rule": "call sequences Earth(E1); use; set(E2) / Earth(E2) / two objects alive, then all identity clauses on E2; latitudes -90..90 (poles, equator, +-1e-9, 1 ulp inside the poles) x heights -500..9000 m x {IAU76, WGS84, user ellipsoids f in [0, 0.01]}: "
                      "ellipse identity, closed forms, rp/rm/linear velocity/height identities; %d point pairs (coincident, 1e-12 deg apart, antipodal, nearly "
                      "antipodal, same meridian with Simpson integral of rm, equatorial, pole to pole): symmetry, 0, a|dlambda|, 1e-4, 0.6 %%; %d parallax "
                      "configurations per function, distances 1e-3..1e3 AU: horizontal-parallax bound and independent vector computation" % (npair, npar),
